@@ -546,7 +546,7 @@ class _SetOperation(Selectable, Term):  # type:ignore[misc]
     def __init__(
         self,
         base_query: "QueryBuilder",
-        set_operation_query: "QueryBuilder",
+        set_operation_query: "QueryBuilder | _SetOperation",
         set_operation: SetOperation,
         alias: str | None = None,
         wrapper_cls: Type[ValueWrapper] = ValueWrapper,
@@ -560,6 +560,11 @@ class _SetOperation(Selectable, Term):  # type:ignore[misc]
         self._offset: ValueWrapper | None = None
 
         self._wrapper_cls = wrapper_cls
+
+    @property
+    def _selects(self) -> list:
+        # The select list of a set operation is that of its base query (consulted when it is itself an operand)
+        return self.base_query._selects
 
     @builder
     def orderby(self, *fields: Field, **kwargs: Any) -> "Self":  # type:ignore[return]
@@ -582,33 +587,33 @@ class _SetOperation(Selectable, Term):  # type:ignore[misc]
         self._offset = cast(ValueWrapper, self.wrap_constant(offset))
 
     @builder
-    def union(self, other: Selectable) -> "Self":  # type:ignore[return]
+    def union(self, other: "QueryBuilder | _SetOperation") -> "Self":  # type:ignore[return]
         self._set_operation = self._set_operation + [
-            (SetOperation.union, other)  # type:ignore[list-item]
+            (SetOperation.union, other)
         ]
 
     @builder
-    def union_all(self, other: Selectable) -> "Self":  # type:ignore[return]
+    def union_all(self, other: "QueryBuilder | _SetOperation") -> "Self":  # type:ignore[return]
         self._set_operation = self._set_operation + [
-            (SetOperation.union_all, other)  # type:ignore[list-item]
+            (SetOperation.union_all, other)
         ]
 
     @builder
-    def intersect(self, other: Selectable) -> "Self":  # type:ignore[return]
+    def intersect(self, other: "QueryBuilder | _SetOperation") -> "Self":  # type:ignore[return]
         self._set_operation = self._set_operation + [
-            (SetOperation.intersect, other)  # type:ignore[list-item]
+            (SetOperation.intersect, other)
         ]
 
     @builder
-    def except_of(self, other: Selectable) -> "Self":  # type:ignore[return]
+    def except_of(self, other: "QueryBuilder | _SetOperation") -> "Self":  # type:ignore[return]
         self._set_operation = self._set_operation + [
-            (SetOperation.except_of, other)  # type:ignore[list-item]
+            (SetOperation.except_of, other)
         ]
 
     @builder
-    def minus(self, other: Selectable) -> "Self":  # type:ignore[return]
+    def minus(self, other: "QueryBuilder | _SetOperation") -> "Self":  # type:ignore[return]
         self._set_operation = self._set_operation + [
-            (SetOperation.minus, other)  # type:ignore[list-item]
+            (SetOperation.minus, other)
         ]
 
     @builder
@@ -635,10 +640,10 @@ class _SetOperation(Selectable, Term):  # type:ignore[misc]
             for field, orient in self._orderbys
         ]
 
-    def __add__(self, other: Selectable) -> "Self":  # type:ignore[override]
+    def __add__(self, other: "QueryBuilder | _SetOperation") -> "Self":  # type:ignore[override]
         return self.union(other)
 
-    def __mul__(self, other: Selectable) -> "Self":  # type:ignore[override]
+    def __mul__(self, other: "QueryBuilder | _SetOperation") -> "Self":  # type:ignore[override]
         return self.union_all(other)
 
     def __sub__(self, other: "QueryBuilder") -> "Self":  # type:ignore[override]
@@ -664,7 +669,11 @@ class _SetOperation(Selectable, Term):  # type:ignore[misc]
 
         querystring = base_querystring
         for set_operation, set_operation_query in self._set_operation:
-            set_operation_querystring = set_operation_query.get_sql(set_ctx)
+            # an operand that is itself a set operation keeps its grouping only inside parentheses
+            nested = isinstance(set_operation_query, _SetOperation)
+            set_operation_querystring = set_operation_query.get_sql(
+                set_ctx.copy(subquery=True) if nested else set_ctx
+            )
 
             if len(self.base_query._selects) != len(set_operation_query._selects):
                 raise SetOperationException(
